@@ -1,5 +1,5 @@
-(* PINNED STATEMENTS for the wake-driven server model (C02, server half).  No proofs here, and
-   NONE of these statements is proved yet: they are evaluated by vm_compute on generated scripts
+(* PINNED STATEMENTS for the wake-driven server model (C02, server half).  No proofs here.
+   Both are PROVED (ServerWakeSettles.v, ServerWakeMon.v; restated in Properties/C02.v); they are also evaluated by vm_compute on generated scripts
    (Checks/SrvWakeSpecTest.v: verdict 0 on every case = neither statement is false there) and the
    monitor runs on the real code's wake-driven traces on every run (Checks/C02server.v).
 
